@@ -153,7 +153,11 @@ func famQuery(sc *scn.Scenario, em func(vt.Ev), distributed bool) {
 	rout := run.Exec(context.Background(), ref, run.Store(sc), sc, true)
 	em(vt.Ev{"ev": "res", "who": "eng", "r": out.C})
 	em(vt.Ev{"ev": "res", "who": "ref", "r": rout.C})
-	em(vt.Ev{"ev": "cmp", "a": "eng", "b": "ref", "d": run.Compare(out.C, rout.C)})
+	d := run.Compare(out.C, rout.C)
+	if !d.Equal && run.PreEpochSubMilli(sc) {
+		d.Shape += ".preepoch-subms"
+	}
+	em(vt.Ev{"ev": "cmp", "a": "eng", "b": "ref", "d": d})
 	em(vt.Ev{"ev": "end"})
 }
 
